@@ -141,7 +141,10 @@ def streams(tier, rng, P, only=None, cases=None):
             cs.append(dict(req="compile2 %s %s" % (hx("l4 " + a), hx("l4 " + b)), src="l4 " + a, un="l4 " + b, show="l4 " + a, jump=True, sexp=None, key="eqlist%d" % j))
         for j, (a, b) in enumerate([("#A={c} [2 #A #A={d}] e", "#A={c} #A #A={d} #A #A={d} e"), ("#A={c:d} [3 #A e] g", "#A={c:d} #A e #A e #A e g")]):
             cs.append(dict(req="compile2 %s %s" % (hx(a), hx(b)), src=a, un=b, show=a, jump=True, sexp=None, key="mfix%d" % j))
-        for j, (a, b) in enumerate([("[1 c : [2 d] e] f", "c f"), ("[c d]", "c d c d"), ("[3 c : d]", "c d c d c"), ("{[2 c d]}4", "{c d c d}4"), ("Sub{[2 c : >]} e", "Sub{c > c} e")]):
+        for j, (a, b) in enumerate([("[1 c : [2 d] e] f", "c f"), ("[c d]", "c d c d"), ("[3 c : d]", "c d c d c"), ("{[2 c d]}4", "{c d c d}4"), ("Sub{[2 c : >]} e", "Sub{c > c} e"),
+                                    # a loop with two ':' in one body (the last pass ends at the first), also inside tuplets
+                                    ("[3 c : d : e] f", "c d e c d e c f"), ("{[3 c : d : e]}4 f", "{c d e c d e c}4 f"), ("Sub{ {[2 c : d e : f]}2 } g", "Sub{ {c d e f c}2 } g"),
+                                    ("[2 {[3 c : d : e]}4 : f] g", "{c d e c d e c}4 f {c d e c d e c}4 g"), ("l8 {[4 c : d : e : f]}1 g", "l8 {c d e f c d e f c d e f c}1 g")]):
             cs.append(dict(req="compile2 %s %s" % (hx(a), hx(b)), src=a, un=b, show=a, jump=True, sexp=None, key="fixed%d" % j))
         return cs
     def model(c, st, f):
